@@ -122,3 +122,19 @@ Proof.
   unfold ZN in A. rewrite L0 in A. cbn [world0 w_store] in *. lia.
 Qed.
 Print Assumptions C03_world_supply.
+
+(* the contract's own LST holdings along every history of the world model: pending batch + refunded LST deliveries
+   awaiting re-send (assumptions of C02_world_solvency) *)
+From MW.Proofs Require Import WorldSolvency.
+Theorem C03_world_holdings : forall va dv av e i m s r evs,
+  instantiate va e i m = Ok (s, r) -> D_of s <> L_of s -> events_ok va dv av (exec_ok va dv av) (world0 s) evs ->
+  let w := World.wrun va dv av (world0 s) evs in
+  let wal := wwallet va dv av (world0 s) {| w_balD := 0; w_balL := 0; w_swept := 0; w_paid := 0 |} evs in
+  (w_balL wal = Z.of_N (pending_total (w_store w)) + Z.of_N (refundable_total (L_of (w_store w)) (w_store w)))%Z.
+Proof.
+  intros va dv av e i m s r evs H Hne Hok. cbv zeta.
+  assert (HS : Solvent (w_store (world0 s), {| w_balD := 0; w_balL := 0; w_swept := 0; w_paid := 0 |})).
+  { cbn [world0 w_store]. eapply solvent_init; eassumption. }
+  pose proof (world_solvency va dv av (world0 s) _ evs (world0_inv va e i m s r H) HS Hok) as (_ & _ & _ & _ & _ & E). exact E.
+Qed.
+Print Assumptions C03_world_holdings.
